@@ -92,6 +92,12 @@ def build_cases(tier):
             doc = "\n".join(tri) + "\n" + used(tri) + "\n"
             cases.append(dict(family="op_pairs", schema=corpus.SCHEMA_K, doc_text=doc, ops=[{"name": q.split()[1], "kwargs": {}} for q in tri],
                               tags={"op_pairs", "op_triple"}, options={}))
+    # second schema family: typed spread matrix, one fragment at two positions of one operation, two operations sharing a fragment
+    for o in corpus.k2_ops() + corpus.k2_matrix():
+        names = [d.name.value for d in parse(o.doc_text).definitions if d.kind == "operation_definition"]
+        from mc.corpus import k2_kwargs
+        cases.append(dict(family="k2", schema=corpus.SCHEMA_K2, doc_text=o.doc_text, ops=[{"name": n, "kwargs": (k2_kwargs(o)[0] if n == o.name else {})} for n in names],
+                          tags=set(t for t in o.tags if t != "family:K2"), options={}))
     graph_sets = [(2, FT4), (3, ("User", "Node"))] if tier == "quick" else [(2, FT4), (3, ("User", "Node", "Named")), (4, ("User", "Node"))]
     for nf, ts in graph_sets:
         for g in corpus2.fragment_graphs(nf, ts):
@@ -119,7 +125,7 @@ def main(tier):
     by_doc = {}
     for c, (st, r) in zip(cases, results):
         fam[c["family"]] = fam.get(c["family"], 0) + 1
-        desc = {"family": c["family"], "schema": "K" if c["schema"] is corpus.SCHEMA_K else "L", "query": c["doc_text"], "options": c["options"],
+        desc = {"family": c["family"], "schema": "K" if c["schema"] is corpus.SCHEMA_K else "K2" if c["schema"] is corpus.SCHEMA_K2 else "L", "query": c["doc_text"], "options": c["options"],
                 "ops": c["ops"], "files": c.get("files"), "tracer": c.get("tracer", "none")}
         schema = K if c["schema"] is corpus.SCHEMA_K else None
 
@@ -127,6 +133,8 @@ def main(tier):
             f = set(c["tags"] or ())
             if c["family"] in ("grammar", "fragment_graph", "op_pairs"):
                 f |= features.op_features(K, c["doc_text"])
+            if c["family"] == "k2":
+                f |= features.op_features(corpus.schema_k2(), c["doc_text"])
             return f
         if rep.triage:
             rep.seen(F())
@@ -139,7 +147,7 @@ def main(tier):
                 continue
             stats["generation_failures"] += 1
             if c["family"] not in ("literal", "mixin", "local_names"):
-                continue  # generation/import failures of grammar and fragment-graph inputs are C01/C04/C08's subject
+                continue  # generation/import failures of grammar, K2 and fragment-graph inputs are C01/C04/C08's subject
             rep.violation(f'{r["status"]}:{r.get("gen_error_type")}', F(), r["gen_error"], desc)
             continue
         if c["family"] == "grammar" and not valid_input(K, c["doc_text"]):
@@ -195,7 +203,7 @@ def replay(path):
     rec = json.load(open(path))
     c = rec["case"]
     genpkg.warm()
-    schema_text = corpus.SCHEMA_K if c.get("schema") == "K" else corpus2.SCHEMA_L
+    schema_text = corpus.SCHEMA_K if c.get("schema") == "K" else corpus.SCHEMA_K2 if c.get("schema") == "K2" else corpus2.SCHEMA_L
     doc = parse(c["query"])
     ops = c.get("ops") or [{"name": d.name.value, "kwargs": {"v": True} if "$v" in c["query"] else {}} for d in doc.definitions if d.kind == "operation_definition"]
     st, r = pool.run_forked(opcheck.capture_requests, dict(schema=schema_text, doc_text=c["query"], ops=ops, options=c.get("options") or {}, files=c.get("files"),
